@@ -74,7 +74,7 @@ def default_cases():
             v >>= 7
         out.append(v)
         return bytes(out)
-    for klen in (2 ** 62, 2 ** 63 - 1, 2 ** 63 - 70, 2 ** 31):
+    for klen in (2 ** 62, 2 ** 63 - 1, 2 ** 63 - 70, 2 ** 31, 2 ** 32, 2 ** 32 + 2, 2 ** 33 + 1, 2 ** 48 + 1):
         rec = b"\x00" + zz(0) + zz(0) + zz(klen) + b"kk"
         cs.append(("v2 record with key length %d" % klen, 2, good[:61] + zz(len(rec)) + rec))
     bad_count = bytearray(good)
